@@ -90,7 +90,9 @@ def call(
     for exponent, coefficient in zip(poly.exponents, poly.coefficients):
         term = ones
         for power, name in zip(exponent, poly.names):
-            term = term * parameters[name] ** power
+            # (a signed 64-bit exponent: with a numpy.uint32 one, a Python number
+            # as base is cast to uint32 first - 2**33 wraps to 0, -2 is refused)
+            term = term * parameters[name] ** numpy.int64(power)
         if isinstance(term, numpoly.ndpoly):
             tmp = numpoly.outer(coefficient, term)
         else:
